@@ -131,10 +131,12 @@ def gen_case_scenario(rng, base, idx):
     variants = []
     for st in stems:
         variants += [st, st.upper(), st.capitalize()]
+    st0 = stems[0]
+    variants += ['_' + st0, '_' + stems[1], st0 + '1', st0 + '01', st0 + '_1', '_%s1' % stems[2]]
     rng.shuffle(variants)
     open(os.path.join(root, 'cased.py'), 'w').write(''.join('%s = %d\n' % (v, i) for i, v in enumerate(variants)))
-    open(os.path.join(root, 'casedpkg', '__init__.py'), 'w').write('%s = 1\n%s = 2\n' % (stems[0].upper(), stems[0]))
-    for v in (stems[1], stems[1].upper(), stems[1].capitalize()):
+    open(os.path.join(root, 'casedpkg', '__init__.py'), 'w').write('%s = 1\n%s = 2\n_%s = 3\n' % (stems[0].upper(), stems[0], stems[0]))
+    for v in (stems[1], stems[1].upper(), stems[1].capitalize(), '_' + stems[1], '_' + stems[2], stems[2], stems[2] + '2', stems[2] + '02'):
         open(os.path.join(root, 'casedpkg', v + '.py'), 'w').write('x = 1\n')
     cls = ('class K1(object):\n' + ''.join('    %s = 1\n' % v for v in variants[:5]) +
            'class K2(object):\n' + ''.join('    %s = 2\n' % v for v in variants[4:]) +
@@ -260,6 +262,49 @@ def gen_multivalue_repeat_scenario(rng, base, idx):
         reqs.append(['assist', src, [3, len(attr) + 3], fn])
     reqs.append(['location', 'import chain\no = chain.K()\no.multi.bb\n', [3, 10], fn])
     return [root], reqs, [None] * 4, [[0, 0, 0], [1, 1], [2, 2, 2], [3, 3], [0, 1, 0, 1], [1, 0, 1, 0], [2, 0, 2, 1]]
+
+
+def gen_two_files_pkg_scenario(rng, base, idx):
+    """two files of one project importing different submodules of one package with qualified
+    imports (the package does not bind them): the same Project handles both files in sequence"""
+    root = os.path.join(base, 'tf%d' % idx)
+    pkg = rng.choice(['pkg', 'libz', 'toolsq'])
+    s1, s2 = rng.sample(['alpha', 'beta', 'gamma', 'delta'], 2)
+    os.makedirs(os.path.join(root, pkg))
+    open(os.path.join(root, pkg, '__init__.py'), 'w').write('VERSION = 1\n\ndef setup():\n    pass\n')
+    open(os.path.join(root, pkg, s1 + '.py'), 'w').write('def %s_func():\n    pass\n' % s1)
+    open(os.path.join(root, pkg, s2 + '.py'), 'w').write('def %s_func():\n    pass\n' % s2)
+    fa, fb = os.path.join(root, 'a.py'), os.path.join(root, 'b.py')
+    open(fa, 'w').write('import %s.%s\n' % (pkg, s1))
+    open(fb, 'w').write('import %s.%s\n' % (pkg, s2))
+    reqs = [['assist', 'import %s.%s\n%s.\n' % (pkg, s1, pkg), [2, len(pkg) + 1], fa],
+            ['assist', 'import %s.%s\n%s.\n' % (pkg, s2, pkg), [2, len(pkg) + 1], fb],
+            ['location', 'import %s.%s\n%s.%s\n' % (pkg, s1, pkg, s1), [2, len(pkg) + 1 + len(s1)], fa],
+            ['location', 'import %s.%s\n%s.%s\n' % (pkg, s2, pkg, s2), [2, len(pkg) + 1 + len(s2)], fb]]
+    return [root], reqs, [None] * 4, [[0, 1, 0, 1], [1, 0, 1, 0], [2, 3, 2], [3, 2], [0, 3], [1, 2]]
+
+
+def gen_settings_app_scenario(rng, base, idx):
+    """a project module in which the receiver of an attribute assignment is derived from an
+    instance attribute (`app = App(); cfg = app.config; cfg.debug = True`): the first request
+    evaluates that very name, then requests about the instance and the class"""
+    root = os.path.join(base, 'sa%d' % idx)
+    os.makedirs(root)
+    app, cfg = rng.choice([('App', 'Config'), ('Server', 'Options'), ('Tool', 'Prefs')])
+    opt = rng.choice(['debug', 'verbose', 'level'])
+    open(os.path.join(root, 'settings.py'), 'w').write(
+        'class %(cfg)s(object):\n    %(opt)s = False\n    name = 1\n'
+        'class %(app)s(object):\n    def __init__(self):\n        self.config = %(cfg)s()\n'
+        '    if flag:\n        def run(self):\n            return 1\n    else:\n        def run(self):\n            return 2\n'
+        '    def stop(self):\n        pass\n'
+        'app = %(app)s()\ncfg = app.config\ncfg.%(opt)s = True\n' % {'app': app, 'cfg': cfg, 'opt': opt})
+    fn = os.path.join(root, 'main.py')
+    reqs = [['assist', 'from settings import cfg\ncfg.\n', [2, 4], fn],
+            ['location', 'from settings import app\napp.run\n', [2, 7], fn],
+            ['assist', 'from settings import app\napp.\n', [2, 4], fn],
+            ['assist', 'import settings\nsettings.%s.\n' % app, [2, 10 + len(app)], fn],
+            ['assist', 'import settings\nsettings.%s().config.\n' % app, [2, 19 + len(app)], fn]]
+    return [root], reqs, [None] * 5, [[0, 1, 2, 3], [0, 0, 3, 3], [2, 0, 1], [3, 0, 3], [4, 0, 2], [0, 4, 1]]
 
 
 def gen_instance_class_scenario(rng, base, idx):
@@ -404,7 +449,8 @@ def project_scenarios(ctx, nproc):
         meta.append(('bases', exps))
         ctx.histogram('scenario', 'bases')
     for name, gen in (('failing-middle', gen_failing_middle_scenario), ('instance-class', gen_instance_class_scenario),
-                      ('multivalue-repeat', gen_multivalue_repeat_scenario)):
+                      ('multivalue-repeat', gen_multivalue_repeat_scenario), ('two-files-pkg', gen_two_files_pkg_scenario),
+                      ('settings-app', gen_settings_app_scenario)):
         for i in range(ctx.pick(4, 40)):
             roots, reqs, exps, shared = gen(ctx.rng, base, i)
             jobs.append({'roots': roots, 'requests': reqs, 'shared': shared})
